@@ -1113,6 +1113,10 @@ class SymCtx(BaseCtx):
     def le(self, a, b, label):
         return self._decide_obligation(label, to_z3(a) > to_z3(b))
 
+    def eq_ceil(self, value, x, label):
+        """value == ceil(x) (exact over the reals)"""
+        return self.eq(value, math.ceil(x) if isinstance(x, Sym) else math.ceil(x), label)
+
     def lt(self, a, b, label):
         return self._decide_obligation(label, to_z3(a) >= to_z3(b))
 
@@ -1332,6 +1336,16 @@ class ConcCtx(BaseCtx):
         self.obligations.append((label, ok))
         if not ok:
             self.failures.append((label, f"{a!r} > {b!r}"))
+        return ok
+
+    def eq_ceil(self, value, x, label):
+        """value == ceil(x); when x is within 1e-9 (relative) of an integer, float rounding decides: both accepted"""
+        x = float(x)
+        cands = {math.ceil(x), math.ceil(x * (1 - 1e-9)), math.ceil(x * (1 + 1e-9))} if math.isfinite(x) else {x}
+        ok = any(self._close(value, c) for c in cands)
+        self.obligations.append((label, ok))
+        if not ok:
+            self.failures.append((label, f"{float(value)!r} != ceil({x!r})"))
         return ok
 
     def lt(self, a, b, label):
